@@ -108,10 +108,10 @@ pub fn specs() -> Vec<PropSpec> {
         },
         PropSpec {
             id: "C09",
-            engine: "repl",
+            engine: "repl,rights",
             budget_s: (50, 600),
             level: "exploration",
-            rule: "as C03 with day changes and recomputation barriers weighted up; at each barrier: no mark left, counts and daily hashes recomputed by harness code, whole log equal to a from-scratch rebuild by the real compute(), equal content <=> equal logs across nodes",
+            rule: "two engines, alternating seeds. rights: the C01 workload (moves between rooms, nested creations, refused operations, several authors) with the same log oracles on every node and room after every barrier. repl: as C03 with day changes and recomputation barriers weighted up; at each barrier: no mark left, counts and daily hashes recomputed by harness code, whole log equal to a from-scratch rebuild by the real compute(), equal content <=> equal logs across nodes",
             assumptions: &[
                 "the chained history hash is never re-implemented: it is only required to be a function of content (metamorphic rebuild with the real DailyLogsUpdate::compute)",
             ],
